@@ -30,6 +30,7 @@ def schedules(c):
     scheds = gb.catalogue()
     scheds += gb.simulate(c, n // 2, ["A", "B"], 2, 12, 14, False)
     scheds += gb.simulate(c, n // 2, ["A", "B", "C"], 2, 14, 18, False)
+    scheds += gb.uniform(c, n // 3, ["A", "B"]) + gb.uniform(c, n // 3, ["A", "B", "C"])
     return scheds
 
 
